@@ -1,6 +1,7 @@
 import SalsaVerif.Drive.Common
 import SalsaVerif.Drive.Edges
 import SalsaVerif.Drive.Cycle
+import SalsaVerif.Drive.CycleRev
 import SalsaVerif.Drive.Lru
 import SalsaVerif.Drive.Intern
 import SalsaVerif.Drive.SyncDG
@@ -11,12 +12,14 @@ import SalsaVerif.Drive.CoreSpec
 import SalsaVerif.Drive.Cancel
 import SalsaVerif.Drive.Alloc
 import SalsaVerif.Drive.Persist
+import SalsaVerif.Drive.Structs
 
 /-! `svdriver <model>` — reads an op file on stdin, prints one line per op. -/
 def main (args : List String) : IO UInt32 := do
   match args with
   | ["edges"] => SalsaVerif.Drive.Edges.main; return 0
   | ["cycle"] => SalsaVerif.Drive.Cycle.main; return 0
+  | ["cyclerev"] => SalsaVerif.Drive.CycleRev.main; return 0
   | ["dg"] => SalsaVerif.Drive.SyncDG.main; return 0
   | ["lru"] => SalsaVerif.Drive.Lru.main; return 0
   | ["rq"] => SalsaVerif.Drive.Intern.mainRq; return 0
@@ -28,6 +31,7 @@ def main (args : List String) : IO UInt32 := do
   | ["cancel"] => SalsaVerif.Drive.Cancel.main; return 0
   | ["alloc"] => SalsaVerif.Drive.Alloc.main; return 0
   | ["persist"] => SalsaVerif.Drive.Persist.main; return 0
+  | ["structs"] => SalsaVerif.Drive.Structs.main; return 0
   | _ =>
-    IO.eprintln "usage: svdriver <model>  (models: edges, cycle, dg, lru, rq, intern, core, cancel, alloc)"
+    IO.eprintln "usage: svdriver <model>  (models: edges, cycle, cyclerev, dg, lru, rq, intern, core, cancel, alloc, persist, structs)"
     return 2
